@@ -761,8 +761,9 @@ class NDNApp:
             self.logger.info('Shutting down')
             ret = False
         finally:
+            # Also when the transport broke and run() raised: the connection is over either way
             self.face.shutdown()
-        self._clean_up()
+            self._clean_up()
         await task
         return ret
 
